@@ -34,6 +34,12 @@ def showSOut : SOut → String
   | .dict o => showOut o
   | .hvar o => showHOut o
 
+def showPOut : POut → String
+  | .sys o => showSOut o
+  | .held vs ks => "held V:" ++ ";".intercalate (vs.map showTuple) ++ " K:" ++ ";".intercalate (ks.map showTuple)
+  | .ok => "ok" | .structError => "struct-error" | .noObject => "none"
+  | .stored o => showOut o
+
 def step (j : Json) : Option String := do
   let keyF ← fmts (← fArr j "key")
   let valF ← fmts (← fArr j "value")
@@ -52,18 +58,33 @@ def step (j : Json) : Option String := do
   -- program 0 is created and loaded first; `["new", j]` creates program j (again), `["on", j, op]` is `op` on program j
   let (sys0, lres) := sysStep D stack0 vars emptySys (.new 0)
   let mut outs : List String := [layout ++ " load=" ++ showSOut lres]
-  let mut sys : Sys := sys0
+  let mut sys : PState := (sys0, emptyHeap)
   for o in ← fArr j "ops" do
     let a0 ← jArr o
     let kind0 ← jStr (← a0.head?)
     if kind0 == "new" then
-      let (s', out) := sysStep D stack0 vars sys (.new (← jNat (← a0[1]?)))
+      let (s', out) := pStep D stack0 vars sys (.sys (.new (← jNat (← a0[1]?))))
       sys := s'
-      outs := outs ++ ["new " ++ showSOut out]
+      outs := outs ++ ["new " ++ showPOut out]
     else
       let (inst, a) ← (if kind0 == "on" then do pure (← jNat (← a0[1]?), ← jArr (← a0[2]?)) else pure (0, a0) : Option (Nat × List Json))
       let kind ← jStr (← a.head?)
       let arg (i : Nat) : Option Json := a[i]?
+      -- operations on the objects Python kept
+      let pop : Option POp ← (match kind with
+        | "recheck" => pure (some .recheck)
+        | "py_mod" => do
+          let i ← jNat (← arg 2)
+          let m ← jNat (← arg 3)
+          let x ← jInt (← arg 4)
+          pure (some (if (← jStr (← arg 1)) == "v" then .modVal i m x else .modKey i m x))
+        | "py_store" => do pure (some (.store inst (← ints (← arg 1)) (← jNat (← arg 2))))
+        | _ => pure none : Option (Option POp))
+      if let some p := pop then
+        let (s', out) := pStep D stack0 vars sys p
+        sys := s'
+        outs := outs ++ [showPOut out]
+        continue
       let dop : Option Op ← (match kind with
         | "py_set" => do pure (some (.pySet (← ints (← arg 1)) (← ints (← arg 2))))
         | "py_get" => do pure (some (.pyGet (← ints (← arg 1))))
@@ -87,9 +108,9 @@ def step (j : Json) : Option String := do
             | "hv_pr_add" => do pure (.prAdd (← jNat (← arg 1)) (← jInt (← arg 2)))
             | _ => none : Option HOp)
           pure (.hvar inst hop) : Option SOp)
-      let (s', out) := sysStep D stack0 vars sys sop
+      let (s', out) := pStep D stack0 vars sys (.sys sop)
       sys := s'
-      outs := outs ++ [showSOut out]
+      outs := outs ++ [showPOut out]
   pure (" | ".intercalate outs)
 
 def main : IO Unit := driverMain step
